@@ -108,6 +108,10 @@ func mutKinds(se session) string {
 }
 
 func runSession(se session) {
+	if se.Program == "tunnel-reset" {
+		runTunnelResetSession(se)
+		return
+	}
 	emit("B", se.ID)
 	defer emit("E", se.ID)
 	srv, err := startScript(se.TLS, se.Muts, se.Seed)
